@@ -22,13 +22,15 @@ import (
 // The plan of every protocol step and every record field is derived from the IR (ref.Plan)
 // and compared with the plan each backend generated, recovered from the constructor
 // expressions in generated Python (binary.py: readers, writers, record serializers) and
-// MATLAB (+binary/*.m). The C++ backend is covered dynamically (C01/C03).
+// MATLAB (+binary/*.m), from the function-template compositions of generated C++
+// (binary/protocols.cc, types.h) and from the converter constructors of generated Python
+// NDJSON code (ndjson.py), whose union tagging decisions are also compared with the documented rule.
 
 type C14Case struct {
 	Pkg *model.Package `json:"pkg"`
 }
 
-const c14Rule = "generated packages; for every protocol step (writer and reader side) and every record field of every package of the layout, the plan derived from the model (composition of element encodings: field order, fixed lengths, array ranks and shapes in row-major order, map key/value encodings, enum base types, union case order, null handling, generic arguments) is compared with the plan parsed from generated Python binary code and generated MATLAB binary code. A constructor the parser does not know is counted as unrecognised and skipped. non-trivial = plan of depth >= 2 or containing a record with type arguments, a union or an array; distinct = (model, step/field)"
+const c14Rule = "generated packages; for every protocol step (writer and reader side) and every record field of every package of the layout, the plan derived from the model (composition of element encodings: field order, fixed lengths, array ranks and shapes in row-major order, map key/value encodings, enum base types, union case order, null handling, generic arguments) is compared with the plan parsed from generated C++ binary code (binary/protocols.cc + types.h), generated Python binary code, generated Python NDJSON code and generated MATLAB binary code; for every Python NDJSON union converter the tagged/untagged decision and the JSON datatypes selecting each case are compared with the documented rule. A constructor the parser does not know is counted as unrecognised and skipped. non-trivial = plan of depth >= 2 or containing a record with type arguments, a union or an array; distinct = (model, step/field)"
 
 var (
 	pyWriteRe   = regexp.MustCompile(`(?m)^        (.+)\.write\(self\._stream, value\)$`)
@@ -37,13 +39,144 @@ var (
 	pySuperInit = regexp.MustCompile(`(?m)^        super\(\).__init__\((\[.*\])\)$`)
 	mFieldRe    = regexp.MustCompile(`(?m)^      field_serializers\{(\d+)\} = (.+);$`)
 	mStepRe     = regexp.MustCompile(`(?m)^      self\.(\w+)_serializer = (.+);$`)
+	pyClassConv = regexp.MustCompile(`(?m)^class (\w+)Converter\(`)
+	pyFieldConv = regexp.MustCompile(`(?m)^        self\._\w+_converter = (.+)$`)
+	pyStepConv  = regexp.MustCompile(`(?m)^        converter = (.+)$`)
 )
+
+type c14UnionWant struct {
+	simple    bool
+	excluded  string     // non-empty: region of an open known finding, not compared
+	caseKinds [][]string // per non-null case; nil = not compared
+}
+
+func tagWord(simple bool) string {
+	if simple {
+		return "untagged"
+	}
+	return "tagged"
+}
+
+func sameSet(a, b []string) bool {
+	m := map[string]int{}
+	for _, x := range a {
+		m[x] |= 1
+	}
+	for _, x := range b {
+		m[x] |= 2
+	}
+	for _, v := range m {
+		if v != 3 {
+			return false
+		}
+	}
+	return true
+}
+
+// c14UnionExpectations walks every type position of the layout (through aliases and generic
+// arguments) and records, per union plan, what the documented NDJSON rule says about it.
+func c14UnionExpectations(root *model.Package, env *model.Env) map[string]c14UnionWant {
+	out := map[string]c14UnionWant{}
+	var walk func(t *model.Type, depth int)
+	walk = func(t *model.Type, depth int) {
+		if t == nil || depth > 24 {
+			return
+		}
+		switch t.Kind {
+		case model.KRef:
+			d := env.Lookup(t.Ns, t.Name)
+			if d == nil {
+				return
+			}
+			if d.Kind == model.DAlias {
+				walk(model.Subst(d.Type, model.Bind(d, t.Args)), depth+1)
+				return
+			}
+			for _, a := range t.Args {
+				walk(a, depth+1)
+			}
+		case model.KOptional, model.KVector, model.KArray, model.KStream:
+			walk(t.Elem, depth+1)
+		case model.KMap:
+			walk(t.Key, depth+1)
+			walk(t.Elem, depth+1)
+		case model.KUnion:
+			w := c14UnionWant{simple: ref.UnionIsSimple(env, t)}
+			for _, cse := range t.Cases {
+				if cse == nil {
+					continue
+				}
+				u := env.Underlying(cse)
+				var kinds []string
+				switch {
+				case u == nil:
+				case u.Kind == model.KParam:
+					w.excluded = "C02-generic-union-param-case-untagged"
+				case u.Kind == model.KRef:
+					if d := env.Lookup(u.Ns, u.Name); d != nil {
+						switch d.Kind {
+						case model.DFlags:
+							w.excluded = "C02-flags-number-union-untagged"
+						case model.DEnum:
+							kinds = []string{"int", "float", "str"}
+						case model.DRecord:
+							kinds = []string{"dict"}
+						}
+					}
+				case u.Kind == model.KPrim:
+					switch u.Prim {
+					case "bool":
+						kinds = []string{"bool"}
+					case "string", "date", "time", "datetime":
+						kinds = []string{"str"}
+					case "complexfloat32", "complexfloat64":
+						kinds = []string{"list"}
+					default:
+						kinds = []string{"int", "float"}
+					}
+				case u.Kind == model.KVector:
+					kinds = []string{"list"}
+				case u.Kind == model.KArray:
+					if u.IsFixedArray() {
+						kinds = []string{"list"}
+					} else {
+						kinds = []string{"dict"}
+					}
+				case u.Kind == model.KMap:
+					if k := env.Underlying(u.Key); k != nil && k.Kind == model.KPrim && k.Prim == "string" {
+						kinds = []string{"dict"}
+					} else if k != nil && k.Kind == model.KPrim {
+						kinds = []string{"list"}
+					}
+				}
+				w.caseKinds = append(w.caseKinds, kinds)
+			}
+			if t.OpenCases {
+				w.excluded = "open-cases"
+			}
+			key := ref.JsonPlan(env, t)
+			if prev, ok := out[key]; ok && prev.excluded != "" {
+				w.excluded = prev.excluded
+			}
+			out[key] = w
+			for _, cse := range t.Cases {
+				walk(cse, depth+1)
+			}
+		}
+	}
+	for _, p := range root.AllPackages() {
+		for _, d := range p.Defs {
+			model.DefTypes(d, func(t *model.Type) { walk(t, 0) })
+		}
+	}
+	return out
+}
 
 func checkC14(c C14Case) *Fail {
 	rec := core.Rec("C14")
 	root := sut.TempDir("c14")
 	defer os.RemoveAll(root)
-	sut.WriteLayout(root, model.EmitLayout(c.Pkg, model.EmitOptions{ExtraManifest: "python:\n  outputDir: ../out/py\nmatlab:\n  outputDir: ../out/m\n"}))
+	sut.WriteLayout(root, model.EmitLayout(c.Pkg, model.EmitOptions{ExtraManifest: "python:\n  outputDir: ../out/py\nmatlab:\n  outputDir: ../out/m\ncpp:\n  sourcesOutputDir: ../out/cpp\n  generateHDF5: false\n  generateCMakeLists: false\n"}))
 	r := sut.Yardl(filepath.Join(root, "main"), "generate")
 	if r.Exit != 0 {
 		return failf("c14-gen", "generate failed for a generated model:\n%s", core.Trunc(sut.StripANSI(r.Combined()), 800))
@@ -79,14 +212,112 @@ func checkC14(c C14Case) *Fail {
 		note(want, where)
 		return nil
 	}
+	typesH, _ := os.ReadFile(filepath.Join(root, "out", "cpp", "types.h"))
+	protoCc, _ := os.ReadFile(filepath.Join(root, "out", "cpp", "binary", "protocols.cc"))
+	var cppUnit *ref.CppUnit
+	if len(typesH) > 0 && len(protoCc) > 0 {
+		cppUnit = ref.ParseCppUnit(string(typesH), string(protoCc))
+	} else {
+		rec.Class("cpp-output-not-found")
+	}
+	// interpretation of one generated C++ (function, type) pair; unknown vocabulary is skipped
+	cmpCpp := func(where, want, got string, err error) *Fail {
+		if err != nil {
+			var unk *ref.ErrUnknown
+			if errors.As(err, &unk) {
+				rec.Class("unrecognised:cpp")
+				rec.Note("cpp: " + unk.Name)
+				return nil
+			}
+			return failf("c14", "cpp %s: cannot interpret the generated composition: %v\n%s", where, err, mtxt)
+		}
+		rec.EvalN(1)
+		rec.Class("compared:cpp")
+		if got != want {
+			return failf("c14", "cpp %s: generated plan differs from the plan the schema prescribes\n  generated: %s\n  schema:    %s\n%s", where, got, want, mtxt)
+		}
+		note(want, "cpp:"+where)
+		return nil
+	}
+	unionWant := c14UnionExpectations(c.Pkg, env)
+	cmpJson := func(where, want, expr string) *Fail {
+		e, err := ref.ParseExpr(expr)
+		if err != nil {
+			rec.Class("unparsed:python-ndjson")
+			return nil
+		}
+		var unions []ref.PyUnionInfo
+		got, err := ref.PyJsonPlan(e, &unions)
+		if err != nil {
+			var unk *ref.ErrUnknown
+			if errors.As(err, &unk) {
+				rec.Class("unrecognised:python-ndjson")
+				rec.Note("python-ndjson: " + unk.Name)
+				return nil
+			}
+			return failf("c14", "python-ndjson %s: cannot interpret generated expression %s: %v", where, core.Trunc(expr, 300), err)
+		}
+		rec.EvalN(1)
+		rec.Class("compared:python-ndjson")
+		if got != want {
+			return failf("c14", "python-ndjson %s: generated plan differs from the plan the schema prescribes\n  generated: %s\n  schema:    %s\n  expression: %s\n%s", where, got, want, core.Trunc(expr, 400), mtxt)
+		}
+		note(want, "ndjson:"+where)
+		for _, ui := range unions {
+			exp, ok := unionWant[ui.Plan]
+			if !ok {
+				rec.Class("ndjson-union:not-located")
+				continue
+			}
+			if exp.excluded != "" {
+				rec.Class("ndjson-union:excluded:" + exp.excluded)
+				continue
+			}
+			rec.EvalN(1)
+			rec.Class(fmt.Sprintf("ndjson-union:compared:simple=%v", exp.simple))
+			if ui.Simple != exp.simple {
+				return failf("c14", "python-ndjson %s: union %s is generated as %s, the documented rule (untagged iff every case maps to a distinct JSON datatype) gives %s\n%s", where, ui.Plan, tagWord(ui.Simple), tagWord(exp.simple), mtxt)
+			}
+			for i, ks := range ui.CaseKinds {
+				if i >= len(exp.caseKinds) || exp.caseKinds[i] == nil {
+					continue
+				}
+				if !sameSet(ks, exp.caseKinds[i]) {
+					return failf("c14", "python-ndjson %s: case #%d of union %s is selected by JSON datatypes %v, its documented JSON form is %v\n%s", where, i, ui.Plan, ks, exp.caseKinds[i], mtxt)
+				}
+			}
+		}
+		return nil
+	}
 	for _, p := range c.Pkg.AllPackages() {
 		isRoot := p == c.Pkg
+		cppNs := sut.PySnake(p.Namespace)
 		pyDir := filepath.Join(root, "out", "py", sut.PySnake(c.Pkg.Namespace))
 		mDir := filepath.Join(root, "out", "m", "+"+sut.PySnake(p.Namespace))
 		if !isRoot {
 			pyDir = filepath.Join(pyDir, sut.PySnake(p.Namespace))
 		}
 		pySrc, _ := os.ReadFile(filepath.Join(pyDir, "binary.py"))
+		pyJsonSrc, _ := os.ReadFile(filepath.Join(pyDir, "ndjson.py"))
+		pyJsonRecords := map[string][]string{}
+		{
+			idx := pyClassConv.FindAllStringSubmatchIndex(string(pyJsonSrc), -1)
+			for i, m := range idx {
+				end := len(pyJsonSrc)
+				if i+1 < len(idx) {
+					end = idx[i+1][0]
+				}
+				body := string(pyJsonSrc[m[0]:end])
+				if j := strings.Index(body, "    def to_json("); j >= 0 {
+					body = body[:j]
+				}
+				var list []string
+				for _, fm := range pyFieldConv.FindAllStringSubmatch(body, -1) {
+					list = append(list, fm[1])
+				}
+				pyJsonRecords[string(pyJsonSrc[m[2]:m[3]])] = list
+			}
+		}
 		// ---- record serializers
 		classIdx := pyClassSer.FindAllStringSubmatchIndex(string(pySrc), -1)
 		pyRecords := map[string]string{}
@@ -153,6 +384,37 @@ func checkC14(c C14Case) *Fail {
 			} else {
 				rec.Class("matlab-record-serializer-not-found")
 			}
+			// C++: the generated Write<Rec>/Read<Rec> functions, one statement per field
+			if cppUnit != nil {
+				for _, rw := range []string{"Write", "Read"} {
+					plans, errs, found := cppUnit.RecordPlans(cppNs, rw, d.Name)
+					if !found {
+						rec.Class("cpp-record-function-not-found")
+						continue
+					}
+					if len(plans) != len(d.Fields) {
+						return failf("c14", "cpp record %s (%s): %d field statements for %d fields\n%s", d.Name, rw, len(plans), len(d.Fields), mtxt)
+					}
+					for i := range plans {
+						if f := cmpCpp(fmt.Sprintf("record %s field #%d (%s) %s", d.Name, i, d.Fields[i].Name, rw), wants[i], plans[i], errs[i]); f != nil {
+							return f
+						}
+					}
+				}
+			}
+			// Python NDJSON: the converter constructed for every field
+			if conv, ok := pyJsonRecords[d.Name]; ok {
+				if len(conv) != len(d.Fields) {
+					return failf("c14", "python-ndjson record %s: %d field converters for %d fields\n%s", d.Name, len(conv), len(d.Fields), mtxt)
+				}
+				for i, ex := range conv {
+					if f := cmpJson(fmt.Sprintf("record %s field #%d (%s)", d.Name, i, d.Fields[i].Name), ref.JsonPlan(env, d.Fields[i].Type), ex); f != nil {
+						return f
+					}
+				}
+			} else if len(pyJsonSrc) > 0 {
+				rec.Class("python-ndjson-record-converter-not-found")
+			}
 		}
 		if !isRoot {
 			continue
@@ -192,6 +454,58 @@ func checkC14(c C14Case) *Fail {
 					}
 				}
 			}
+			// C++: every overload of Write<Step>Impl / Read<Step>Impl, steps matched by order
+			if cppUnit != nil {
+				for _, side := range []string{"Writer", "Reader"} {
+					var names []string
+					byName := map[string][]ref.CppStep{}
+					for _, cs := range ref.CppSteps(string(protoCc)) {
+						if cs.Protocol != proto.Name || cs.Side != side {
+							continue
+						}
+						if _, ok := byName[cs.Step]; !ok {
+							names = append(names, cs.Step)
+						}
+						byName[cs.Step] = append(byName[cs.Step], cs)
+					}
+					if len(names) != len(proto.Fields) {
+						rec.Class("cpp-steps-not-matched")
+						continue
+					}
+					for i, st := range proto.Fields {
+						for _, cs := range byName[names[i]] {
+							got, err := cppUnit.StepPlan(cs, st.Type.Kind == model.KStream)
+							if f := cmpCpp(fmt.Sprintf("protocol %s step %s (%s, parameter %s)", proto.Name, st.Name, side, cs.ParamType), ref.Plan(env, st.Type), got, err); f != nil {
+								return f
+							}
+						}
+					}
+				}
+			}
+			// Python NDJSON: the converter of every step, writer and reader side
+			for _, side := range []string{"Writer", "Reader"} {
+				cls := regexp.MustCompile(`(?s)class NDJson` + proto.Name + side + `\(.*?(?:\nclass |\z)`).FindString(string(pyJsonSrc))
+				cs := pyStepConv.FindAllStringSubmatch(cls, -1)
+				if len(cs) != len(proto.Fields) {
+					if len(pyJsonSrc) > 0 {
+						rec.Class("python-ndjson-steps-not-matched")
+					}
+					continue
+				}
+				for i, st := range proto.Fields {
+					want := ref.JsonPlan(env, st.Type)
+					expr := cs[i][1]
+					where := fmt.Sprintf("protocol %s step %s (%s)", proto.Name, st.Name, side)
+					if st.Type.Kind == model.KStream {
+						// the generated code builds the item converter and loops over the items itself
+						want = ref.JsonPlan(env, st.Type.Elem)
+						where += " stream item"
+					}
+					if f := cmpJson(where, want, expr); f != nil {
+						return f
+					}
+				}
+			}
 		}
 	}
 	return nil
@@ -212,7 +526,7 @@ func init() {
 func TestC14(t *testing.T) {
 	rec := core.Rec("C14")
 	rec.SetRule(c14Rule)
-	rec.Assume("the constructor-name tables (harness/ref/plan.go) map each runtime class to the encoding it implements; the runtimes themselves are exercised by C01-C03 (Python, C++), MATLAB code is only read as text", "the C++ backend and the Python NDJSON backend are compared with the reference dynamically by C01-C03, not here")
+	rec.Assume("the constructor-name tables (harness/ref/plan.go) map each runtime class to the encoding it implements; the runtimes themselves are exercised by C01-C03 (Python, C++), MATLAB code is only read as text", "the C++ NDJSON backend is compared with the reference dynamically by C02/C03, not here; NDJSON unions with a flags case or a bare type-parameter case lie in the region of two open C02 findings and are counted, not compared")
 	replayKnown(t, "C14")
 	rapid.Check(t, func(rt *rapid.T) {
 		cfg := model.DefaultGen()
